@@ -480,7 +480,11 @@ def gen_pars(w, info, two_d, tier):
     if not over:
         k = min(k, partable.max_pd)
     chosen = w.sample(pd_names, k)
-    budget = 3000 if tier != "quick" else 900
+    # Mesh budget.  Models outside the quick pool include ones that integrate
+    # numerically at every q (milliseconds per mesh point): keep theirs small
+    # so that a workload (reference + ~15 schedules) stays within seconds.
+    fast = info.id in QUICK_MODELS
+    budget = (3000 if tier != "quick" else 900) if fast else 150
     for name in chosen:
         p = byname[name]
         dist = w.choice(DISTS)
